@@ -75,6 +75,8 @@ def gen(rng, tier):
                 steps.append({"op": "delete", "pick": rng.random(), "form": rng.choice(["str", "feature", "features", "strs", "gen"])})
             if rng.random() < 0.25:
                 steps.append({"op": "foreign", "pick": rng.random(), "what": rng.choice(["delete", "replace"])})
+            if rng.random() < 0.2:
+                steps.append({"op": "replace_while_reading", "n": rng.choice([3, 13, 20])})
             if rng.random() < 0.25:
                 # ids drawn from the handle's counters by merge(), stored by update(), must stay reserved in later sessions
                 steps.append({"op": "merge_update", "ftype": rng.choice(["exon", "gene", "mRNA", "CDS"])})
@@ -167,6 +169,32 @@ def run(case):
                             mm = AUTO_RE.match(f["id"])
                             if mm:
                                 model.counters[mm.group(1)] = max(model.counters.get(mm.group(1), 0), int(mm.group(2)))
+                continue
+            if k == "replace_while_reading" and alive and model.order and spec in (None, "ID", ["ID", "Name"]):
+                # update(merge_strategy='replace') fed by a lazy generator that looks every key up on this handle while
+                # the update consumes it; afterwards db[key] must give what is stored now
+                keys = [x for x in model.order if not AUTO_RE.match(x)][: st["n"]]
+                if keys:
+                    newf = [mf(["chrR", "repl", model.feats[x]["cols"][2], 4, 44, ".", "-", "."], [["ID", [x]], ["note", ["second version"]]]) for x in keys]
+                    pad = [mf(["chrR", "repl", "exon", 4, 44, ".", "-", "."], [["ID", ["pad%d_%d" % (si, j)]]]) for j in range(max(0, st["n"] - len(keys)))]
+                    data = G.source_spec(None, newf + pad, form="gen")
+                    data["touch"] = {"h": "h", "keys": keys}
+                    ur = call(node, {"op": "update", "h": "h", "data": data, "kw": {"merge_strategy": "replace", "make_backup": False}})
+                    if ur["ok"]:
+                        model.import_gff3(newf + pad, strategy="replace", id_spec=spec)
+                        model.auto_issued = []
+                        probes["update_fed_by_generator_reading_the_handle"] = 1
+                        for x in keys:
+                            g2 = call(node, {"op": "get", "h": "h", "key": x})
+                            df = diff_feature(model.feats[x], g2["f"]) if g2["ok"] else ["raised %s" % g2["exc"]]
+                            if df:
+                                V.append(viol("C04.lookup", "db[%r] after update(replace) fed by a generator that read the handle: %s" % (x, "; ".join(df[:2])),
+                                              kind="stale_lookup_after_update"))
+                                break
+                        if V:
+                            break
+                    else:
+                        call(node, {"op": "gc"})
                 continue
             if k == "foreign" and alive and model.order:
                 # look-up through this handle, a write by ANOTHER process, look-up through this handle again
